@@ -21,7 +21,6 @@ var carriers = []struct {
 }{
 	{"/*", "*/\n", "*", false},
 	{"//", "\n", "", false},
-	{"#", "\n", "", false},
 	{"$s = '", "';\n", "'\\", false},
 	{"$s = \"", "\";\n", "\"\\${", false},
 	{"$s = <<<'EOT'\n", "\nEOT;\n", "", false},
@@ -41,9 +40,11 @@ var faults = []struct {
 	{"$u = nofn(1);", false, "undefined function"},
 	{"$u = new NoClass();", false, "undefined class"},
 	{"$u = $q->m();", false, "method call on null"},
-	{"$u = = 3;", true, "missing operand"},
+	{"$u = );", true, "stray closing parenthesis"},
 	{"function f( { }", true, "parameter list"},
-	{"$u = [1, 2;", true, "unterminated list"},
+	{"foreach ($k) { }", true, "foreach without as"},
+	{"else { $u = 1; }", true, "else without if"},
+	{"$u = (1 + ;", true, "unterminated parenthesis"},
 	{"if ($k { $u = 1; }", true, "unterminated condition"},
 }
 
